@@ -302,6 +302,9 @@ RESET_TIMER:
 		if len(s.bufptr) > 0 {
 			n = copy(b, s.bufptr)
 			s.bufptr = s.bufptr[n:]
+			if len(s.bufptr) > 0 || s.kcp.PeekSize() > 0 {
+				s.notifyReadEvent() // more is readable: pass the wake-up on to another blocked reader
+			}
 			s.mu.Unlock()
 			atomic.AddUint64(&DefaultSnmp.BytesReceived, uint64(n))
 			return n, nil
@@ -312,6 +315,9 @@ RESET_TIMER:
 			// from kcp.recv() to 'b', like 'DMA'.
 			if len(b) >= size {
 				s.kcp.Recv(b)
+				if s.kcp.PeekSize() > 0 {
+					s.notifyReadEvent() // more is readable: pass the wake-up on to another blocked reader
+				}
 				s.mu.Unlock()
 				atomic.AddUint64(&DefaultSnmp.BytesReceived, uint64(size))
 				return size, nil
@@ -329,6 +335,9 @@ RESET_TIMER:
 			s.kcp.Recv(s.recvbuf)    // read data to recvbuf first
 			n = copy(b, s.recvbuf)   // then copy bytes to 'b' as many as possible
 			s.bufptr = s.recvbuf[n:] // pointer update
+			if len(s.bufptr) > 0 || s.kcp.PeekSize() > 0 {
+				s.notifyReadEvent() // more is readable: pass the wake-up on to another blocked reader
+			}
 
 			s.mu.Unlock()
 			atomic.AddUint64(&DefaultSnmp.BytesReceived, uint64(n))
